@@ -293,6 +293,12 @@ func (a address) assign(k bool, value int8, valueType reflect.Type) {
 	case assignLocalStructSelector:
 		a.em.fb.emitSetField(k, a.op1, a.op2, value, valueType.Kind())
 	case assignNonLocalStructSelector:
+		if a.addressedType.Kind() == reflect.Struct {
+			// Get again the value of the variable: it may have been changed,
+			// by a previous assignment of a tuple assignment, after the
+			// address has been evaluated.
+			a.em.fb.emitGetVar(a.nonLocal, a.op1, reflect.Struct)
+		}
 		a.em.fb.emitSetField(k, a.op1, a.op2, value, valueType.Kind())
 		a.em.fb.emitSetVar(false, a.op1, a.nonLocal, a.addressedType.Kind())
 	}
